@@ -233,8 +233,9 @@ class WindowedWarmUpStager(Stager):
                 trace_funcs=warm_up_trace_funcs,
                 record_stats=record_stats,
             )
-            # growing size slow adaptation windows
-            n_window_iter = n_init_slow_window_iter
+            # growing size slow adaptation windows (at least one iteration each as a window
+            # of zero iterations would never be left)
+            n_window_iter = max(1, n_init_slow_window_iter)
             slow_windows = []
             counter = 0
             n_slow_stage_iter = (
@@ -252,7 +253,7 @@ class WindowedWarmUpStager(Stager):
                     n_window_iter = n_slow_stage_iter - counter
                 slow_windows.append(n_window_iter)
                 counter += n_window_iter
-                n_window_iter = int(self.slow_window_multiplier * n_window_iter)
+                n_window_iter = max(1, int(self.slow_window_multiplier * n_window_iter))
             for i, n_iter in enumerate(slow_windows):
                 sampling_stages[f"Slow adaptive ({i + 1}/{len(slow_windows)})"] = (
                     ChainStage(
